@@ -1013,6 +1013,7 @@ static const struct rs_harness H = {
     .fine_file = fine,
     .on_op = on_op,
     .describe = describe,
+    .on_quiesce = fmpi_release_held,
     .counter_names = {[C_ROLLBACK] = "rollbacks", [C_ANTI_LOCAL] = "anti_messages", [C_ANTI_BEFORE_PROC] = "anti_extracted_unprocessed",
 	[C_ANTI_AFTER_PROC] = "anti_extracted_processed", [C_SILENT] = "silent_executions", [C_FOSSIL_RELEASE] = "fossil_releases",
 	[C_GVT_ROUNDS] = "gvt_reports", [C_COMMITTED] = "committed_events", [C_CKPT] = "checkpoints", [C_EVENTS] = "forward_events",
@@ -1020,7 +1021,7 @@ static const struct rs_harness H = {
 	[C_CANCEL_IN_QUEUE] = "cancelled_while_queued", [C_E_CHECKED] = "end_state_compared", [C_T_CHECKED] = "termination_checked",
 	[C_NEG_QUIESCENT] = "negative_quiescent", [C_REMOTE_SENT] = "remote_events_sent", [C_REMOTE_ANTI] = "remote_anti_sent",
 	[C_EARLY_ANTI] = "early_remote_anti", [C_CANCEL_IN_HANDS] = "cancelled_extracted_unprocessed",
-	[C_CANCEL_REQUEUED] = "cancelled_after_requeue", [C_RNG_CHECKED] = "rng_stream_checked", [C_STATS_RECORDS] = "stats_records_compared", [C_CANCEL_PROCESSED] = "cancelled_after_processing", [C_REMOTE_ANTI_RECV] = "remote_anti_extracted", [40] = "mpi_invisible", [41] = "mpi_reordered", [42] = "mpi_collective_delayed"},
+	[C_CANCEL_REQUEUED] = "cancelled_after_requeue", [C_RNG_CHECKED] = "rng_stream_checked", [C_STATS_RECORDS] = "stats_records_compared", [C_CANCEL_PROCESSED] = "cancelled_after_processing", [C_REMOTE_ANTI_RECV] = "remote_anti_extracted", [40] = "mpi_invisible", [41] = "mpi_reordered", [42] = "mpi_collective_delayed", [43] = "mpi_held_back"},
 };
 
 int main(int argc, char **argv)
